@@ -129,6 +129,19 @@ static bool terminal(const sg4::Activity& a)
   return s == sg4::Activity::State::FINISHED || s == sg4::Activity::State::FAILED || s == sg4::Activity::State::CANCELED;
 }
 
+// Actor-driven modes: starting an activity is not atomic (Exec/Io/Comm::do_start issue a simcall, so other actors run while the
+// activity is still STARTING), and SimGrid itself starts the successors of a completed activity from within wait()/test(). An
+// activity that is STARTING with solved dependencies and all its resources is therefore either being started right now by another
+// actor, or stuck; in both cases a careful program leaves it alone (no new dependency, no second start(), no re-assignment).
+static bool being_started(const sg4::Activity& a)
+{
+  return mode != 'M' && a.get_state() == sg4::Activity::State::STARTING && a.dependencies_solved() && a.is_assigned();
+}
+// Likewise an activity that is FINISHED but still has successors is in the middle of release_dependencies() in another actor.
+static bool releasing(const sg4::Activity& a)
+{
+  return mode != 'M' && a.get_state() == sg4::Activity::State::FINISHED && not a.get_successors().empty();
+}
 static void exec_op(const std::string& line);
 static std::string snapshot()
 {
@@ -360,6 +373,8 @@ static void exec_op(const std::string& line)
       is >> h;
       if (not startable(*A.a))
         return skip("state", line);
+      if (being_started(*A.a))
+        return skip("being-started", line);
       printf("Q %ld %.17g %s\n", who(), now(), line.c_str());
       if (op == "host" && A.kind == 'E')
         static_cast<sg4::Exec*>(A.a.get())->set_host(hosts.at(h));
@@ -373,6 +388,8 @@ static void exec_op(const std::string& line)
     } else if (op == "start") {
       if (not startable(*A.a))
         return skip("state", line);
+      if (being_started(*A.a))
+        return skip("being-started", line);
       printf("Q %ld %.17g %s\n", who(), now(), line.c_str());
       A.a->start();
       printf("R %ld\n", who());
@@ -383,6 +400,10 @@ static void exec_op(const std::string& line)
       Act& B = acts[y];
       if (not startable(*B.a))
         return skip("succ-started", line);
+      if (being_started(*B.a))
+        return skip("succ-being-started", line);
+      if (releasing(*A.a))
+        return skip("pred-releasing", line);
       if (op == "dep" && terminal(*A.a))
         return skip("pred-done", line);
       if (A.a->get_state() == sg4::Activity::State::FAILED || A.a->get_state() == sg4::Activity::State::CANCELED)
@@ -408,6 +429,8 @@ static void exec_op(const std::string& line)
         found = found || s.get() == B.a.get();
       if (not found)
         return skip("no-edge", line);
+      if (releasing(*A.a))
+        return skip("pred-releasing", line);
       printf("Q %ld %.17g %s\n", who(), now(), line.c_str());
       if (A.kind == 'E')
         static_cast<sg4::Exec*>(A.a.get())->remove_successor(B.a);
@@ -416,8 +439,12 @@ static void exec_op(const std::string& line)
       else
         static_cast<sg4::Io*>(A.a.get())->remove_successor(B.a);
       printf("R %ld\n", who());
-      if (op == "undeps" && B.a->get_state() == sg4::Activity::State::STARTING && B.a->dependencies_solved())
-        exec_op("start " + y);
+      if (op == "undeps" && B.a->get_state() == sg4::Activity::State::STARTING && B.a->dependencies_solved()) {
+        // its start() was vetoed by the dependency we have just removed (nobody else can be starting it): ask again
+        printf("Q %ld %.17g start %s\n", who(), now(), y.c_str());
+        B.a->start();
+        printf("R %ld\n", who());
+      }
     } else
       skip("unknown-op", line);
   } catch (std::exception const& e) {
